@@ -27,6 +27,10 @@ def run(rep, tier, seed):
         while len(g.lines) < nops:
             g.step()
         s = ["dev %d 0" % size, "wlog 0", fmt, "pages", "wlog 1", "poke %d %02x" % (off, b0), "mount 1 0 lossy"] + g.lines
+        if i % 4 == 3:
+            # a boot sector without the extended boot signature 0x29 (volume id / label / type absent: the specification allows it,
+            # this library's formatter never writes it): the status byte next to it means the same
+            s[5:6] = ["poke %d %02x" % (off, b0), "poke %d %s" % (off + 1, rng.choice(["00", "28"]) + "00" * 23)]
         end = rng.choice(["unmount", "dropfs", "forget", "forget"])
         if end != "forget" and g.files and rng.chance(2, 3):
             # a second session on the cleanly closed volume whose FIRST change is one particular kind of structural change
